@@ -1,6 +1,6 @@
 """Shared helpers for rule modules."""
 import re
-from ..engine import (AnalysisError, ctrl_sig, assumed_sig, show, strip, walk, tree_calls, tree_has, last_seg, short, has_leaf)
+from ..engine import (AnalysisError, ctrl_sig, assumed_sig, dom_guards, show, strip, walk, tree_calls, tree_has, last_seg, short, has_leaf)
 
 ALL_CONFIGS = ["K0", "K1", "K2", "K3", "K4", "K5", "K6", "K7", "K8", "K9", "K10", "K11", "K12", "K13"]
 
@@ -74,6 +74,71 @@ def is_log_pred(p):
 def sig(fn, bb):
     """Control-dependence signature without logging guards."""
     return [p for p in ctrl_sig(fn, bb) if not is_log_pred(p)]
+
+
+def _is_bool_const(t, v):
+    return t and t[0] == "const" and t[2] is v
+
+
+def expand_pred(fn, p, depth=0):
+    """Implications of a predicate on a short-circuit temporary:
+    (a && b) is lowered to phi(b | false): == true implies b == true and the guards of b's definition (a == true);
+    (a || b) is lowered to phi(true | b): == false implies b == false and the guards of b's definition (a == false)."""
+    out = [p]
+    if depth > 4 or not isinstance(p.val, bool):
+        return out
+    sw = fn.blocks[p.bb]["t"]
+    if sw["k"] != "switch":
+        return out
+    alts = fn.flow.switch_alternatives(p.bb)
+    if len(alts) < 2:
+        return out
+    neg = False
+    # the decoded predicate may have been negated; recompute polarity w.r.t. the raw local
+    raw_true = p.label is not None and (p.label == ("else", (0,)) or p.label == ("v", 1))
+    other = [(b, t) for (b, t) in alts if not _is_bool_const(strip(t), not raw_true)]
+    if len(other) == 1 and len(other) < len(alts) and other[0][0] is not None:
+        b, t = other[0]
+        from ..engine import Pred
+        t2 = strip(t)
+        val = raw_true
+        while t2 and t2[0] == "un" and t2[1] == "Not":
+            t2 = strip(t2[2])
+            val = not val
+        if not _is_bool_const(t2, raw_true):
+            q = Pred(t2, p.label, p.bb, val)
+            out.append(q)
+        for g in dom_guards(fn, b):
+            if g.bb != p.bb:
+                out.extend(expand_pred(fn, g, depth + 1))
+    return out
+
+
+def guards(fn, bb, assumed=False):
+    """Dominating branch edges of bb (loop-stable), without logging guards; short-circuit
+    temporaries are expanded into their implied conjuncts."""
+    g = []
+    for p in dom_guards(fn, bb):
+        if is_log_pred(p):
+            continue
+        for q in expand_pred(fn, p):
+            if not is_log_pred(q) and all((show(q.tree), q.val) != (show(x.tree), x.val) for x in g):
+                g.append(q)
+    if assumed:
+        g += [p for p in assumed_sig(fn, bb) if not is_log_pred(p)]
+    return g
+
+
+def guard_strs(fn, bb, assumed=False):
+    return sorted(set("%s == %s" % (show(p.tree), p.val) for p in guards(fn, bb, assumed)))
+
+
+def guard_find(fn, bb, rx, val=None, assumed=False):
+    out = []
+    for p in guards(fn, bb, assumed):
+        if re.search(rx, show(p.tree)) and (val is None or p.val == val):
+            out.append(p)
+    return out
 
 
 def sig_assumed(fn, bb):
